@@ -396,6 +396,8 @@ func runC15(c *Ctx) {
 			}
 		}
 		treeWrites(c, e, cs, r6, "argument resolution")
+		r7 := c.Rule("R7", "index and slice expressions reachable from ArgumentMap are in bounds", 3)
+		c02IndexSafety(c, r7, cs)
 	}
 }
 
